@@ -21,8 +21,12 @@ def observe_concretize(records):
         glob = sorted(set(alloc.global_allocation))
         ids = {}
         rows = [(m, [ids.setdefault(id(i), len(ids)) for i in insts]) for m, insts in livesets]
+        try:
+            mlt = export_memliveness(self, ml)
+        except Exception as e:   # exporter does not understand the IR shape: fail closed later
+            mlt = {"error": f"{type(e).__name__}: {e}"}
         r = orig(self)
-        records.append({"fn": str(self.function.name), "globals": glob,
+        records.append({"fn": str(self.function.name), "globals": glob, "memliveness": mlt,
                         "rows": [(alloc.allocated[m], m.alloca_size, live, pre[m] is None, pre[m]) for m, live in rows]})
         return r
     ConcretizeMemLocPass.run_pass = wrapped
@@ -30,6 +34,63 @@ def observe_concretize(records):
         yield
     finally:
         ConcretizeMemLocPass.run_pass = orig
+
+
+def export_memliveness(pass_, ml):
+    """tables of the REAL MemLivenessAnalysis for the verified checker C04/MemLiveness.v memliveness_check"""
+    from vyper.venom.basicblock import IRLabel, IRLiteral
+    from vyper.venom.memory_location import get_memory_read_op, get_memory_write_op, get_write_size
+    fn = pass_.function
+    bbs = list(ml.cfg.dfs_pre_walk)
+    ids, insts = {}, []
+    for bb in bbs:
+        for inst in bb.instructions:
+            ids[id(inst)] = len(insts)
+            insts.append((bb, inst))
+    aid = {}
+
+    def A(alloca):
+        return aid.setdefault(alloca, len(aid))
+    rows = []
+    for k, (bb, inst) in enumerate(insts):
+        if inst is bb.instructions[-1]:
+            succ = [ids[id(s.instructions[0])] for s in ml.cfg.cfg_out(bb)]
+        else:
+            succ = [k + 1]
+        wptrs = ml._find_base_ptrs(get_memory_write_op(inst))
+        rptrs = ml._find_base_ptrs(get_memory_read_op(inst))
+        reads = {A(p.base_alloca) for p in rptrs}
+        refs = set()
+        for op in inst.operands:
+            refs |= {A(p.base_alloca) for p in ml._find_base_ptrs(op)}
+        if inst.opcode == "invoke":
+            label = inst.operands[0]
+            assert isinstance(label, IRLabel)
+            callee = fn.ctx.get_function(label)
+            used_by_callee = {A(m) for m in ml.mem_allocator.mems_used[callee]}
+            reads |= used_by_callee | refs
+            refs |= used_by_callee
+        writes = {A(p.base_alloca) for p in wptrs}
+        kill = None
+        size = get_write_size(inst)
+        if len(wptrs) == 1 and isinstance(size, IRLiteral):
+            (wp,) = wptrs
+            if size.value == wp.base_alloca.alloca_size:
+                kill = A(wp.base_alloca)
+        rows.append({"succ": succ, "reads": sorted(reads), "writes": sorted(writes), "refs": sorted(refs | reads | writes), "kill": kill,
+                     "liveat": sorted(A(m) for m in ml.liveat[inst]), "used": sorted(A(m) for m in ml.used[inst])})
+    livesets = [(A(m), sorted(ids[id(i)] for i in s_ if id(i) in ids)) for m, s_ in ml.livesets.items()]
+    return {"rows": rows, "livesets": livesets, "n_allocas": len(aid)}
+
+
+def memliveness_term(mlt):
+    def nl(xs):
+        return "[" + "; ".join(f"{x}%nat" for x in xs) + "]"
+    rows = "; ".join(f"mkM {nl(r['succ'])} {nl(r['reads'])} {nl(r['writes'])} {nl(r['refs'])} "
+                     f"{'(Some ' + str(r['kill']) + '%nat)' if r['kill'] is not None else 'None'} {nl(r['liveat'])} {nl(r['used'])}"
+                     for r in mlt["rows"])
+    ls = "; ".join(f"({m}%nat, {nl(s_)})" for m, s_ in mlt["livesets"])
+    return f"[if memliveness_check [{rows}] [{ls}] then 1 else 0]"
 
 
 def gen_mem_contract(rnd, idx):
@@ -72,7 +133,7 @@ def run(ctx, model_ok, n):
             Config(True, "gas", "prague", flags=["disable_inlining"]), Config(True, "codesize", "cancun", inline_threshold=0),
             Config(True, "gas", "cancun", flags=["disable_mem2var"])]
     exprs, meta = [], []
-    n_rows = n_pairs = n_pinned = 0
+    n_rows = n_pairs = n_pinned = ml_insts = 0
     for idx in range(n):
         src = gen_mem_contract(rnd, idx)
         cfg = cfgs[idx % len(cfgs)]
@@ -107,6 +168,15 @@ def run(ctx, model_ok, n):
                             return n_rows, True
             n_rows += len(rows)
             n_pinned += sum(1 for r in rows if not r[3])
+            # ---- MemLivenessAnalysis tables: verified checker of the fixpoint inequations + liveset construction
+            mlt = rec.get("memliveness") or {}
+            if "error" in mlt:
+                ctx.violation("correspondence-broken", "cannot export the MemLivenessAnalysis tables: " + mlt["error"], detail)
+                return n_rows, True
+            if mlt.get("rows") and len(mlt["rows"]) <= 1500:
+                exprs.append(memliveness_term(mlt))
+                meta.append((dict(detail, instructions=len(mlt["rows"])), "verified checker memliveness_check (MemLivenessAnalysis fixpoint / livesets)", [1]))
+                ml_insts += len(mlt["rows"])
             # ---- verified checker + model of the greedy loop
             arows = "; ".join(f"mkA {coqrun.hexlit(o)} {coqrun.hexlit(s)} {zl(lv)} {'true' if nw else 'false'}" for o, s, lv, nw, _ in rows)
             globs = "[" + "; ".join(f"({coqrun.hexlit(a)}, {coqrun.hexlit(b)})" for a, b in glob) + "]"
@@ -121,13 +191,13 @@ def run(ctx, model_ok, n):
             exprs.append(f"concretize_out {pairs_c} {globs} {pin_c} {todo_c}")
             meta.append((detail, "model of the greedy loop (offsets in placement order)", [r[0] for _, r in pinned] + [r[0] for _, r in todo]))
     if model_ok and exprs:
-        outs = coqrun.eval_zlists("From Verif Require Import C04.AllocModel C04.Concretize.\n", exprs, "c04conc",
+        outs = coqrun.eval_zlists("From Verif Require Import C04.AllocModel C04.Concretize C04.MemLiveness.\n", exprs, "c04conc",
                                   shard=max(8, len(exprs) // 4 + 1))
         for (detail, what, want), got in zip(meta, outs):
             if got != want:
                 ctx.violation("correspondence-broken", f"{what} disagrees with the real ConcretizeMemLocPass output",
                               dict(detail, real=want, coq=[str(x) for x in got]))
                 return n_rows, True
-    ctx.corr["concretize"] = {"contracts": n, "allocas": n_rows, "interfering_pairs_checked": n_pairs, "pinned": n_pinned,
+    ctx.corr["concretize"] = {"contracts": n, "allocas": n_rows, "interfering_pairs_checked": n_pairs, "pinned": n_pinned, "memliveness_instructions_checked": ml_insts,
                               "configs": [c.name for c in cfgs]}
     return n_rows, False
